@@ -153,6 +153,111 @@ def feeding_calls(fa, expr, at, name, _seen=None):
     return out
 
 
+# =================================================================================================
+# walks whose branch decisions agree with each other
+# =================================================================================================
+
+def _sig(fa, t, at):
+    """By which definitions the names of the test `t` are bound at node `at`."""
+    return frozenset((v, frozenset(d.node for d in fa.df.reaching(at, v))) for v in {x.id for x in ast.walk(t) if isinstance(x, ast.Name)})
+
+
+def _opened(fa, t, at):
+    """A boolean local opened up (`missing = k not in d` ... `if missing:`), like FA.conditions does."""
+    if isinstance(t, ast.Name):
+        try:
+            e = fa.expand(t, at)
+        except AnalysisError:
+            return t
+        if isinstance(e, (ast.Compare, ast.BoolOp, ast.UnaryOp)):
+            for x_ in ast.walk(e):
+                x_._no_expand = True
+            return e
+    return t
+
+
+def _known(fa, t, at, facts, sig=None):
+    """Three-valued reading of the test `t` (at node `at`) under the branch facts {literal text: (polarity, sig)}
+    established earlier on the walk; a fact counts only when the names of its test were bound by the same definitions
+    as they are here.  True / False / None (not decided by the facts)."""
+    sig = _sig(fa, t, at) if sig is None else sig
+    t = _opened(fa, t, at)
+    if isinstance(t, ast.UnaryOp) and isinstance(t.op, ast.Not):
+        v = _known(fa, t.operand, at, facts, sig if getattr(t, "_no_expand", False) else None)
+        return None if v is None else not v
+    if isinstance(t, ast.BoolOp):
+        vs = [_known(fa, v, at, facts, sig if getattr(t, "_no_expand", False) else None) for v in t.values]
+        dom = isinstance(t.op, ast.Or)      # one disjunct true / one conjunct false decides
+        if any(v is dom for v in vs):
+            return dom
+        return (not dom) if all(v is (not dom) for v in vs) else None
+    text, pol = fa._literal(t, at, True)
+    f = facts.get(text)
+    if f is None or f[1] != sig:
+        return None
+    return f[0] == pol
+
+
+def _facts_of(fa, t, at, positive, sig=None):
+    """[(literal text, polarity, sig)] established by taking the test `t` with the given polarity (a conjunction
+    taken true / a disjunction taken false splits into its parts)."""
+    sig = _sig(fa, t, at) if sig is None else sig
+    t = _opened(fa, t, at)
+    sub = sig if getattr(t, "_no_expand", False) else None
+    if isinstance(t, ast.UnaryOp) and isinstance(t.op, ast.Not):
+        return _facts_of(fa, t.operand, at, not positive, sub)
+    if isinstance(t, ast.BoolOp) and ((isinstance(t.op, ast.And) and positive) or (isinstance(t.op, ast.Or) and not positive)):
+        return [f for v in t.values for f in _facts_of(fa, v, at, positive, sub)]
+    text, pol = fa._literal(t, at, positive)
+    return [(text, pol, sig)]
+
+
+def consistent_walk(fa, targets, via=None, avoid=(), cap=60000):
+    """A walk entry -> (one of `via`, when given) -> one of `targets` that never passes `avoid` and on which no branch
+    is taken against what an earlier branch of the same walk established (`if v: A` ... `if v and w: B`: B only after
+    A's branch).  Facts are forgotten at loop heads.  Returns the list of node ids, [] when there is none, or None when
+    the search was cut off (callers then decide on plain reachability)."""
+    cfg = fa.cfg
+    targets, avoid = set(targets), set(avoid)
+    via = set(via) if via is not None else None
+    start = (cfg.entry, via is None, frozenset())
+    prev = {start: None}
+    stack = [start]
+    while stack:
+        if len(prev) > cap:
+            return None
+        state = stack.pop()
+        n, after, lits = state
+        if n in avoid:
+            continue
+        if after and n in targets:
+            out = []
+            while state is not None:
+                out.append(state[0])
+                state = prev[state]
+            return out[::-1]
+        if via is not None and n in via:
+            after = True
+        nd = cfg.node(n)
+        loop_head = nd.kind == "for" or (nd.kind == "test" and isinstance(fa.pm.get(nd.ast), ast.While))
+        for (d, l) in cfg.succ[n]:
+            new = lits
+            if loop_head:
+                new = frozenset()
+            elif nd.kind == "test" and nd.ast is not None and l in ("T", "F"):
+                facts = {t: (pol, g) for (t, pol, g) in lits}
+                if _known(fa, nd.ast, n, facts) is (l != "T"):
+                    continue
+                for (t, pol, g) in _facts_of(fa, nd.ast, n, l == "T"):
+                    facts[t] = (pol, g)
+                new = frozenset((t, pol, g) for (t, (pol, g)) in facts.items())
+            nxt = (d, after, new)
+            if nxt not in prev:
+                prev[nxt] = state
+                stack.append(nxt)
+    return []
+
+
 def _compute_nodes(rl):
     """CFG nodes at which memento_run_local computes the invocation: the call of the function body (the wrapped
     function reached through the reference's `memento_fn`, or anything called with the reference's effective
@@ -379,6 +484,9 @@ def _r1_run_local(ck, R1):
            and stored(s.value, rl.nodes(s)[0]) and (sc.with_stmt is None or rl.inside(s, sc.with_stmt))]
     for r in served:
         oks = bool(asg) and all(rl.cfg.must_pass(rl.nodes_all(asg), i) for i in rl.nodes(r))
+        if asg and not oks:
+            # the replacement and the return may sit under two tests of the same condition
+            oks = consistent_walk(rl, rl.nodes(r), avoid=rl.nodes_all(asg)) == []
         ck.ob(R1, rl.key(None, "served-memento-replaces"), oks, "the stored memento (with its stored dependency set) is what propagates" if oks else
               "a served result propagates the fresh, empty frame memento instead of the stored one: transitive dependencies are lost", rl.where(r))
     # ... and only then: while the invocation is (still going to be) computed, the frame's memento is the fresh record
@@ -392,7 +500,11 @@ def _r1_run_local(ck, R1):
         ck.paths_enumerated += 1
         wit = ""
         if hit:
-            wit = rl.cfg.describe_path(rl.cfg.path(rl.nodes(st)[0], hit[0]) or [])
+            walk = consistent_walk(rl, work, via=rl.nodes(st))
+            if walk == []:
+                hit = []
+            else:
+                wit = rl.cfg.describe_path(walk if walk else rl.cfg.path(rl.nodes(st)[0], hit[0]) or [])
         ck.ob(R1, rl.key(st, "adopts-only-when-served"), not hit,
               "the stored memento becomes the frame's memento only on a path that returns the served result" if not hit else
               "`%s` makes stored metadata the frame's memento on a path that goes on to run the function body / memoize (witness %s): "
